@@ -116,7 +116,7 @@ class BranchingList:
                 branch = None
             if node.case_type==Keyword.CASE:
                 pass
-            elif node.case_type==Keyword.ELSE and branch:
+            elif node.case_type==Keyword.ELSE and branch and Keyword.ELSE not in branch.types:
                 pass
             elif node.case_type==Keyword.END and branch:
                 self._close_branch()
